@@ -148,9 +148,13 @@ class gather(core.Stream):
         previous, done = self._last, Future()
         self._last = done
         try:
-            result = yield client.gather(x, asynchronous=True)
-            if previous is not None:
-                yield previous
+            try:
+                result = yield client.gather(x, asynchronous=True)
+            finally:
+                # an element whose task failed keeps its place too: the ones
+                # behind it must not get ahead of the ones before it
+                if previous is not None:
+                    yield previous
             result2 = yield self._emit(result, metadata=metadata)
         finally:
             done.set_result(None)
